@@ -396,18 +396,27 @@ class AsynchronousDeferredRunTest(_DeferredRunTest):
             self._got_user_exception(sys.exc_info())
 
     def _blocking_run_deferred(self, spinner):
-        try:
-            return trap_unhandled_errors(spinner.run, self._timeout, self._run_deferred)
-        except NoResultError:
-            # We didn't get a result at all!  This could be for any number of
-            # reasons, but most likely someone hit Ctrl-C during the test.
-            self._got_user_exception(sys.exc_info())
-            self.result.stop()
-            return False, []
-        except TimeoutError:
-            # The function took too long to run.
-            self._log_user_exception(TimeoutError(self.case, self._timeout))
-            return False, []
+        # Timeouts and interrupts are handled *inside* the function that
+        # trap_unhandled_errors watches: it does its accounting (and disarms
+        # the destructors of the DebugInfo objects it collected) only when
+        # that function returns, and Deferreds that failed unhandled before a
+        # timeout or an interrupt belong to this test as much as any other.
+        def run():
+            try:
+                return spinner.run(self._timeout, self._run_deferred)
+            except NoResultError:
+                # We didn't get a result at all!  This could be for any number
+                # of reasons, but most likely someone hit Ctrl-C during the
+                # test.
+                self._got_user_exception(sys.exc_info())
+                self.result.stop()
+                return False
+            except TimeoutError:
+                # The function took too long to run.
+                self._log_user_exception(TimeoutError(self.case, self._timeout))
+                return False
+
+        return trap_unhandled_errors(run)
 
     def _get_log_fixture(self):
         """Return the log fixture we're configured to use."""
